@@ -155,7 +155,10 @@ def run(name, tier="quick"):
     verdict = "CAUGHT" if rc == 1 and viol else ("INCONCLUSIVE" if rc == 3 else ("MISSED" if rc == 0 else f"rc={rc}"))
     msgs = [l.strip() for l in out.splitlines() if l.startswith("  Verif") or "INCONCLUSIVE" in l][:4]
     print(f"{name}: {verdict} ({time.time()-t0:.0f}s) {msgs}")
-    res = {"seed": name, "tier": tier, "verdict": verdict, "rc": rc, "detail": msgs}
+    res = {"seed": name, "tier": tier, "verdict": verdict, "rc": rc, "detail": msgs, "seconds": round(time.time() - t0),
+           "repo_commit": sh(["git", "-C", REPO, "rev-parse", "--short", "HEAD"])[1].strip(),
+           "runs_violated": sorted({l.split(":")[0].strip() for l in out.splitlines() if l.startswith("  Verif")})}
+    json.dump(res, open(os.path.join(d, "result.json"), "w"), indent=1)
     # restore evidence of the unchanged tree is the caller's job (re-run the check)
     return res
 
